@@ -4,7 +4,7 @@
 # patch to /repo, runs the given checks (default: the property's own), and undoes it.
 ID="$1"; shift
 CHECKS="${*:-$ID}"
-WT=/tmp/wt/$ID; OUT=/tmp/wt/out/$ID
+WT=/tmp/wt/$ID; OUT=${OUTBASE:-/tmp/wt/out}/$ID
 export GOFLAGS=-mod=mod GOPROXY=off GOSUMDB=off GOTOOLCHAIN=local
 [ -f "$OUT/patch.diff" ] || { echo "no patch for $ID"; exit 2; }
 DEMO_LINE=$(grep -m1 -o "go test[^\"]*" "$OUT/demo_test.go" | head -1)
